@@ -207,7 +207,7 @@ func (s *histSys) Apply(op string) (obs, class string, viols []bfs.Viol) {
 			}
 		}
 		earliestExpired := s.expired(s.m.Cons[earliest].Time)
-		cctx := Fork(s.ctx, s.now)
+		cctx, write := ForkW(s.ctx, s.now)
 		err := s.h.Update(cctx, hdr)
 		if err != nil {
 			class = "update rejected"
@@ -220,7 +220,7 @@ func (s *histSys) Apply(op string) (obs, class string, viols []bfs.Viol) {
 			}
 			return "rejected", class, viols
 		}
-		s.ctx = cctx
+		write()
 		class = "update accepted"
 		if uint64(h) < s.m.Latest {
 			class += " (back-fill)"
